@@ -452,13 +452,13 @@ static inline void save_to_qmem_pingordata(int userid, struct query *q)
 	   + 1 char CMC; that last char is non-Base32.
 	 */
 
-	char cmc[8];
+	char cmc[8 + 1];	/* decode() adds a '\0' after the decoded bytes */
 	int i;
 
 	if (q->name[0] == 'P' || q->name[0] == 'p') {
 		/* Ping packet */
 
-		size_t cmcsize = sizeof(cmc);
+		size_t cmcsize = sizeof(cmc) - 1;
 		char *cp = strchr(q->name, '.');
 
 		if (cp == NULL)
